@@ -38,6 +38,28 @@ pub fn generate(tier: &str, seed: u64) -> Vec<String> {
     let thorough = tier == "thorough";
     let ncfg = if thorough { 3000 } else { 300 };
     let mut out = vec![];
+    // long contiguous runs: a 4 x 1500 uint16 array, shards 2 x 1500, inner chunks 1 x 1500, every other row never written -
+    // a missing inner chunk is filled as ONE run of 3000 bytes (block-wise fill strategies must not drop a remainder)
+    {
+        let dts = dtypes();
+        let dt = dts.iter().find(|d| d.name == "uint16").unwrap().clone();
+        for (w, inner_w) in [(1100u64, 1100u64), (1030, 515)] {
+            let cfg = Cfg { dtype: dt.clone(), fill: ("1799".into(), vec![7, 7]), shape: vec![4, w], grid: vec![(true, vec![2]), (true, vec![w])], regular_impl: true,
+                keys: ("default".into(), "/".into()),
+                codecs_json: format!("[{{\"name\":\"sharding_indexed\",\"configuration\":{{\"chunk_shape\":[1,{}],\"codecs\":[{{\"name\":\"bytes\",\"configuration\":{{\"endian\":\"little\"}}}}],\"index_codecs\":[{{\"name\":\"bytes\",\"configuration\":{{\"endian\":\"little\"}}}},{{\"name\":\"crc32c\"}}],\"index_location\":\"end\"}}}}]", inner_w),
+                chain_desc: format!("shard[1x{};end;le+crc;bytes-little]", inner_w), sharded: true, path: "/long".into(), eff_inner: Some(vec![1, inner_w]) };
+            out.push(cfg.cfg_line("c17", "memory", false, false, " ct=4"));
+            for row in [0u64, 2] {
+                let xs: Vec<Vec<u8>> = (0..w).map(|i| vec![(i % 250) as u8 + 1, (row + 1) as u8]).collect();
+                out.push(format!("c17 op store_array_subset r={},0+1,{} data={}", row, w, show_elems(&xs)));
+            }
+            out.push("c17 op shard_cache_new".into());
+            out.push("c17 op retrieve_chunk c=0,0".into());
+            out.push("c17 op retrieve_chunk c=1,0".into());
+            out.push(format!("c17 op retrieve_array_subset r=0,0+4,{}", w));
+            out.push(format!("c17 op sharded_subset r=0,0+4,{}", w));
+        }
+    }
     let mut k = 0;
     while k < ncfg {
         let cfg = gen_cfg(&mut rng, if k % 2 == 0 { Some(true) } else { None });
